@@ -50,6 +50,17 @@ func c06Gen(rt *rapid.T) wProg {
 			p.Ops = append(p.Ops, wOp{K: "sub", S: s, T: "g0", A: gPick(rt, gOwnWant, "want")})
 		}
 	}
+	if gPct(rt, 20) {
+		// the two P2P participants' account defaults differ: the initiator's grant comes from the other one's
+		for s := 0; s < len(p.Sess); s++ {
+			if p.Sess[s] == 1 || (p.Sess[s] == 0 && gPct(rt, 30)) {
+				p.Ops = append(p.Ops, wOp{K: "sub", S: s, T: "me"}, wOp{K: "set", S: s, T: "me", A: "defacs", B: gPick(rt, []string{"JRW", "JW", "JRWP", "JRA", "N"}, "medef")})
+				if p.Sess[s] == 1 {
+					break
+				}
+			}
+		}
+	}
 	if gPct(rt, 45) {
 		p.Ops = append(p.Ops, wOp{K: "sub", S: 0, T: "p1"})
 		if gPct(rt, 70) {
@@ -70,7 +81,7 @@ func c06Gen(rt *rapid.T) wProg {
 		case 1:
 			pool = append(pool, "p0", "me")
 		default:
-			pool = append(pool, "P01", "p0", "sys", "me", "fnd")
+			pool = append(pool, "P01", "p0", "sys", "me", "fnd", "Q01")
 		}
 		return gPick(rt, pool, "topic")
 	}
@@ -118,6 +129,16 @@ func c06Gen(rt *rapid.T) wProg {
 			y := 1 + (x+gInt(rt, 0, 1, "p2ppeer"))%3
 			if y != x {
 				p.Ops = append(p.Ops, wOp{K: "sub", S: 0, T: fmt.Sprintf("p%d", y), Obo: x + 1, Lvl: gPick(rt, []string{"anon", "anon", "auth", ""}, "obolvl")})
+			}
+		}
+		if i == 1 && p.Cfg.Root && gPct(rt, 40) {
+			// somebody else's group: the root session joins it for the first time, on the topic's terms
+			if hs := sessOfUser(gInt(rt, 1, 2, "g1owner")); hs > 0 {
+				mk := wOp{K: "sub", S: hs, T: "new"}
+				if gPct(rt, 40) {
+					mk.H = map[string]any{"defacs": map[string]any{"auth": gPick(rt, []string{"JRWPS", "JRW", "N"}, "g1auth"), "anon": "N"}}
+				}
+				p.Ops = append(p.Ops, mk, wOp{K: "sub", S: 0, T: "g1", A: gPick(rt, []string{"", "", "JRWPASDO", "JRWPS"}, "rootwant")}, wOp{K: "get", S: hs, T: "g1", A: "sub"})
 			}
 		}
 		if i == 2 && p.Cfg.Root && gPct(rt, 40) {
@@ -288,7 +309,7 @@ type c06Obs struct {
 	pre       *mem.State
 	transfers int
 	pending   int
-	grants    map[types.Uid]bool // users whose given ∋ O was written by a step of the then-owner
+	grants    map[subKey]bool // users whose given ∋ O was written by a step of the then-owner
 	owner     map[string]types.Uid
 	// faultTaint: topics whose ownership rows were left half-written by a request during which the
 	// store failed (the hand-over makes several store writes): what a failed request leaves behind is
@@ -352,13 +373,13 @@ func (o *c06Obs) After(w *wWorld, st *wStep) *kit.Viol {
 			if actor != newOwner {
 				return kit.V("ownership-moved-by-other", "ownership of %s moved from user %d to user %d by a request of user %d: %s", name, w.userIdx(prevOwner), w.userIdx(newOwner), st.User, st.Req)
 			}
-			if !o.grants[newOwner] {
+			if !o.grants[subKey{name, newOwner}] {
 				return kit.V("ownership-taken-without-grant", "user %d became owner of %s although the owner never granted O: %s", w.userIdx(newOwner), name, st.Req)
 			}
 			o.owner[name] = newOwner
 			o.transfers++
 			// grants made by the then-owner to other subscribers stay valid until revoked
-			delete(o.grants, newOwner)
+			delete(o.grants, subKey{name, newOwner})
 			continue
 		}
 		// The owner's row must not lose O or J (given) or be deleted by somebody else's request.
@@ -371,15 +392,15 @@ func (o *c06Obs) After(w *wWorld, st *wStep) *kit.Viol {
 		// A grant is gone when the grantee's given no longer holds O.
 		for k, v := range subRows(post) {
 			// (an unsubscribed or evicted user keeps the stored grant: re-subscribing restores it, C07)
-			if k.topic == name && o.grants[k.user] && !v.given.IsOwner() {
-				delete(o.grants, k.user)
+			if k.topic == name && o.grants[k] && !v.given.IsOwner() {
+				delete(o.grants, k)
 			}
 		}
 		// Track grants of O made by the owner.
 		if actor == prevOwner {
 			for k, v := range subRows(post) {
 				if pr := subRows(o.pre)[k]; k.topic == name && k.user != prevOwner && v.given.IsOwner() && !pr.given.IsOwner() {
-					o.grants[k.user] = true
+					o.grants[k] = true
 					o.pending++
 				}
 			}
@@ -440,7 +461,7 @@ func (o *c06Obs) After(w *wWorld, st *wStep) *kit.Viol {
 func c06Exec(t *testing.T, r *kit.Run) func(wProg) kit.Outcome {
 	return func(p wProg) kit.Outcome {
 		r.WAL(p)
-		obs := &c06Obs{grants: map[types.Uid]bool{}, owner: map[string]types.Uid{}}
+		obs := &c06Obs{grants: map[subKey]bool{}, owner: map[string]types.Uid{}}
 		obs.known = func(v *kit.Viol) bool { return r.IsKnown(v.Sig) && r.Violation(v, p) }
 		var res wRunResult
 		fail := wInBubble(t, func() { res = wExec(&p, obs, nil) })
@@ -656,12 +677,13 @@ func (o *c07Obs) After(w *wWorld, st *wStep) *kit.Viol {
 					if !hadA {
 						execLvl := actorLvl
 						if st.Op.Obo > 0 && st.Login >= 0 {
-							execLvl = w.users[st.Login].level
+							// (a request on behalf of somebody which names no level is executed at 'auth')
+							execLvl = auth.LevelAuth
 							switch st.Op.Lvl {
 							case "anon":
 								execLvl = auth.LevelAnon
-							case "auth":
-								execLvl = auth.LevelAuth
+							case "root":
+								execLvl = auth.LevelRoot
 							}
 						}
 						u1, u2, _ := types.ParseP2P(topic)
@@ -684,6 +706,11 @@ func (o *c07Obs) After(w *wWorld, st *wStep) *kit.Viol {
 					o.resub++
 					if b.given != a.given {
 						return kit.V("resubscribe-lost-previous-grant", "user %d subscribed again to %s and got given %v, the previous grant was %v (default %v): %s", tgt, topic, b.given, a.given, def, st.Req)
+					}
+				} else if actorLvl == auth.LevelRoot && st.Op.Obo == 0 && !(st.NewGrp >= 0) && !w.isNewGroupOwner(post, topic, target) {
+					// root is not subject to the topic's default access; ownership still comes from the owner only
+					if b.given.IsOwner() {
+						return kit.V("O-granted-by-non-owner", "root user %d subscribed to %s, a group owned by somebody else, and got given %v: %s", tgt, topic, b.given, st.Req)
 					}
 				} else if b.given != def && !(st.NewGrp >= 0) && !w.isNewGroupOwner(post, topic, target) {
 					return kit.V("first-grant-not-default", "user %d subscribed to %s and got given %v, the topic default for the level is %v: %s", tgt, topic, b.given, def, st.Req)
